@@ -565,7 +565,13 @@ def rule_zero_defers(ctx):
                 hs = [h for h in handoffs(ctx, p, s["idx"]) if h[1] == objroot]
                 if p.exit[0] == "retry" and hit is None:
                     # loop back edge taken before the decision (for-loop over children): judged on
-                    # the continuation paths
+                    # the continuation paths - unless an attempt was already handed off
+                    if hs:
+                        r.instance("%s: undecided -> %d hand-off(s) %s" % (f.split("::")[-1], len(hs), [h[0] for h in hs]),
+                                   False)
+                        r.violate(f, "handoff-undecided", "a destruction attempt (%s) is handed off without having decided "
+                                  "that the count hit zero: the attempt consumes a share it does not own (the object is "
+                                  "destructed while still referenced)" % ", ".join(h[0] for h in hs), s["event"].loc())
                     continue
                 if hit is None:
                     r.violate(f, "site", "after a successful strong decrement the path does not decide whether the "
